@@ -44,7 +44,7 @@ _POPS = ["marginal", "condition_on", "linear_sum", "entropy", "kl", "condition_o
 
 
 def _pool_m(tier):
-    base = [(1, 2), (2, 3), (3, 2), (2, 5), (4, 3), (3, 6), (2, 1), (3, 4)]
+    base = [(1, 2), (2, 3), (3, 2), (2, 5), (4, 3), (3, 6), (2, 1), (3, 4), (2, 20), (18, 2)]
     if tier == "thorough":
         base += [(4, 6), (1, 5), (4, 2), (2, 4), (3, 3), (1, 6)]
     return base
@@ -203,7 +203,7 @@ def _labels_idx(R, idx):
 
 # ------------------------------------------------------------------------------------------ products
 def _pool_p(tier):
-    base = [(1, 2, 2), (2, 3, 2), (3, 2, 3), (2, 1, 4), (2, 4, 1), (4, 3, 3), (3, 5, 2), (2, 2, 6)]
+    base = [(1, 2, 2), (2, 3, 2), (3, 2, 3), (2, 1, 4), (2, 4, 1), (4, 3, 3), (3, 5, 2), (2, 2, 6), (2, 18, 1), (2, 3, 17)]
     if tier == "thorough":
         base += [(1, 6, 1), (4, 2, 2), (3, 1, 5), (2, 3, 4), (4, 4, 2)]
     return base
@@ -271,7 +271,7 @@ _COPS = ["condition_on_x", "set_y", "joint", "marginal", "conditional", "conditi
 
 def _pool_c(tier):
     # (Dx, Dy, n, N)
-    base = [(1, 1, 2, 2), (2, 2, 3, 2), (3, 2, 2, 1), (2, 3, 4, 2), (2, 1, 5, 1), (3, 3, 2, 3), (1, 2, 6, 1), (2, 2, 1, 2)]
+    base = [(1, 1, 2, 2), (2, 2, 3, 2), (3, 2, 2, 1), (2, 3, 4, 2), (2, 1, 5, 1), (3, 3, 2, 3), (1, 2, 6, 1), (2, 2, 1, 2), (2, 2, 18, 1), (2, 3, 2, 20)]
     if tier == "thorough":
         base += [(4, 2, 3, 1), (2, 4, 2, 2), (1, 1, 6, 2), (3, 1, 4, 1), (1, 3, 3, 2)]
     return base
